@@ -1,6 +1,6 @@
 (* props/C15.v - C15: each site yields the group's copies, once each, inside one canonical cell (reals). *)
 From Coq Require Import ZArith List Bool Reals Sorted. Import ListNotations.
-From PV Require Import Num NumR model.Geom proofs.LatticeFacts proofs.SiteFacts.
+From PV Require Import Num NumR model.Geom proofs.LatticeFacts proofs.SiteFacts proofs.SymmetryFacts proofs.LJFacts proofs.RedescribeFacts.
 
 Theorem C15_wrap_spec :
   forall x : R, (-1 / 2 <= wrapR x < 1 / 2)%R /\ (exists n : Z, (wrapR x - x)%R = IZR n).
@@ -52,4 +52,15 @@ Theorem C15_site_orientation_period :
     PI))) = site_tf NumR (@mkSite NumR x y (cos theta) (sin theta)).
 Proof. exact site_orientation_period. Qed.
 Print Assumptions C15_site_orientation_period.
+
+Theorem C15_positions_site_shift :
+  forall (syms : list tfR) (s : siteR) (n m : Z), Forall int_sym syms -> positions NumR syms
+    (shift_site s n m) = positions NumR syms s.
+Proof. exact positions_site_shift. Qed.
+Print Assumptions C15_positions_site_shift.
+
+Theorem C15_group_operations_are_int_sym :
+  forall hs : list hop, Forall int_sym (map tf_of_hop hs).
+Proof. exact group_operations_are_int_sym. Qed.
+Print Assumptions C15_group_operations_are_int_sym.
 
